@@ -229,11 +229,15 @@ enum Verdict {
 }
 
 fn verify(w: &World, c: &Case) -> (Verdict, Option<(String, String)>) {
+    verify_h(w, c, false)
+}
+/// `reconfigured`: the verifier reaches its localhost setting through the opposite setting first
+fn verify_h(w: &World, c: &Case, reconfigured: bool) -> (Verdict, Option<(String, String)>) {
     // returns verdict and (scheme, host) as the harness sees the origin
     let rp = c.rp.as_deref();
     macro_rules! go {
         ($v:expr) => {{
-            let v = $v.allows_insecure_localhost(c.localhost);
+            let v = if reconfigured { $v.allows_insecure_localhost(!c.localhost).allows_insecure_localhost(c.localhost) } else { $v.allows_insecure_localhost(c.localhost) };
             if c.kind == "web" {
                 let Ok(url) = Url::parse(&c.origin) else { return (Verdict::Unbuildable, None) };
                 let scheme = url.scheme().to_string();
@@ -348,6 +352,12 @@ pub fn eval(w: &World, c: &Case) -> (Vec<Finding>, String, bool) {
             Ok(false) => {}
         }
     }
+    if c.through_client || c.origin.contains("localhost") {
+        let (again, _) = verify_h(w, c, true);
+        if again != verdict {
+            fs.push(Finding::new(format!("origin={}/kind=builder-history-changes-verdict", c.kind), format!("a verifier set to allows_insecure_localhost({}) after having been set to the opposite answers {again:?}, a verifier set directly answers {verdict:?}; origin={:?} rp={:?}", c.localhost, c.origin, c.rp), case.clone()));
+        }
+    }
     if c.through_client && c.kind == "web" && !c.custom_provider {
         fs.extend(through_client(w, c, &verdict, &case));
     }
@@ -357,7 +367,9 @@ pub fn eval(w: &World, c: &Case) -> (Vec<Finding>, String, bool) {
 fn through_client(_w: &World, c: &Case, verdict: &Verdict, case: &Value) -> Vec<Finding> {
     let mut fs = vec![];
     let Ok(url) = Url::parse(&c.origin) else { return fs };
-    for op in ["register", "authenticate"] {
+    // the client reaches its localhost setting directly (0), through the opposite setting (1), or
+    // through its own, the opposite and its own again (2): only the last call counts
+    for (op, builder) in [("register", 0u8), ("authenticate", 0), ("register", 1), ("authenticate", 2)] {
         let log = Log::new();
         let seeded_rp = match verdict {
             Verdict::Accepted(r) => r.clone(),
@@ -365,7 +377,11 @@ fn through_client(_w: &World, c: &Case, verdict: &Verdict, case: &Value) -> Vec<
         };
         let store = Shared::new(RefStore::with(vec![seeded(&Seed { n: 1, rp: seeded_rp.clone(), handle: Some(vec![1]), counter: Some(1), hmac: None })]));
         let auth = Authenticator::new(Aaguid::new_empty(), Logging { inner: store.clone(), log: log.clone() }, ScriptedUv::consenting(log.clone()));
-        let mut client = Client::new(auth).allows_insecure_localhost(c.localhost);
+        let mut client = match builder {
+            0 => Client::new(auth).allows_insecure_localhost(c.localhost),
+            1 => Client::new(auth).allows_insecure_localhost(!c.localhost).allows_insecure_localhost(c.localhost),
+            _ => Client::new(auth).allows_insecure_localhost(c.localhost).allows_insecure_localhost(!c.localhost).allows_insecure_localhost(c.localhost),
+        };
         let res: Result<(Vec<u8>, Vec<u8>), String> = par::catch(|| {
             if op == "register" {
                 let opts = webauthn::CredentialCreationOptions {
